@@ -4,7 +4,7 @@ SPECIFICATION MCSpec
 CONSTANTS
   Trunk = 8
   MaxBlocks = 2
-  Diffs = {1, 2}
+  Diffs = {1}
   Pool <- Pool2
   PoolVal <- PoolVal2
   Maturity = 3
